@@ -12,7 +12,7 @@
    matches. *)
 Require Import Cherab.Common.Qx.
 From Coq Require Import Qabs Qround.
-Require Import Cherab.Model.C04_Beam Cherab.Model.C04_Policy.
+Require Import Cherab.Model.C04_Beam Cherab.Model.C04_Policy Cherab.Model.C04_Float.
 Open Scope Q_scope.
 
 (* ---- stub families ---- *)
@@ -222,3 +222,29 @@ Definition check_case (stubs : list stub) (c0 : beam_cfg) (amu : Q)
             else if negb (count_eq 1 dres =? 0)%Z then 4%Z
             else if negb (forallb (check_direction c) dirs) then 6%Z
             else (1000 * count_eq 2 dres)%Z.
+
+(* ---- bit-exact replay of the attenuation loop (Model/C04_Float.v with rn = round53) ----
+   terms: per node, per species (density, charge, coefficient value) as the implementation saw them;
+   etab: per node (double argument of np.exp, libm's value); ys: the interpolator evaluated at the first n-1 knots.
+   result 0 = every double agrees bit for bit | 1 speed is not the correctly rounded root | 2 an argument of np.exp differs
+   | 3 a node value differs | 4 shape *)
+Definition rn53 : Q -> Q := fl_round53.
+
+Fixpoint check_nodes_from (n0 speed : Q) (Ts : list Q) (etab : list (Q * Q)) (ys : list Q) : Z :=
+  match Ts, etab, ys with
+  | _, _, [] => 0%Z
+  | T :: Ts', (a, v) :: etab', y :: ys' =>
+      if negb (Qeq_bool (fl_exp_arg rn53 T speed) a) then 2%Z
+      else if negb (Qeq_bool (fl_line rn53 n0 v) y) then 3%Z
+      else check_nodes_from n0 speed Ts' etab' ys'
+  | _, _, _ => 4%Z
+  end.
+
+Definition check_nodes_exact (L : Q) (n : Z) (P E m ec cf speed : Q) (terms : list (list (Q * Q * Q)))
+           (etab : list (Q * Q)) (ys : list Q) : Z :=
+  if negb (sqrt_rn_ok speed (rn53 (E * cf))) then 1%Z
+  else if negb ((Z.of_nat (length terms) =? n)%Z && (Z.of_nat (length etab) =? n)%Z) then 4%Z
+  else
+    let zs := fl_nodes rn53 L n in
+    let ss := map (fl_stopping rn53) terms in
+    check_nodes_from (fl_source rn53 P E m ec speed) speed (fl_cumtrapz rn53 (combine zs ss)) etab ys.
